@@ -114,7 +114,9 @@ class C16(Prop):
         "IEEE rounding is not modelled; arrays are modelled elementwise (array vs scalar agreement is checked by the oracle)",
         "RambergOsgood.stress / delta_stress: the theorem is existence + uniqueness of the exact inverse and the "
         "round trips for it; convergence of scipy.optimize.newton is runtime behaviour, measured against bisection "
-        "within the solver's tolerance on strains |e| <= 0.5 (50 %), E in [1e4,5e5], K in [1e2,5e3], n in [0.02,0.95]; "
+        "within the solver's tolerance on the generated strains |e| <= 0.5 (50 %) and, in the oracle, also on strain(s) of "
+        "the generated stresses as far as |e| <= 1; E in [1e4,5e5], K in [1e2,5e3] (both multiplied by 1e6 - Pa instead of "
+        "MPa - in about 25 % of the cases), n in [0.01,0.95]; "
         "the solver raising RuntimeError is not counted as a violation, a silently wrong value is",
         "np.asarray / _as_consistant_arrays (shape check) are treated as identities on the mathematical values",
     ]
